@@ -7,3 +7,37 @@ Theorem bi_reachable_is_symmetric_closure_of_reachable :
   forall g s d, bi_reachable g s d = reachable g s d || reachable g d s.
 Proof. exact bi_reachable_def. Qed.
 Print Assumptions bi_reachable_is_symmetric_closure_of_reachable.
+
+Theorem reachable_fuel_ok : forall g s d, reachable_opt g s d <> None.
+Proof. exact reachable_fuel_ok_lem. Qed.
+Print Assumptions reachable_fuel_ok.
+
+Theorem reachable_correct :
+  forall g s d, reachable g s d = true <-> (In s (keys g) /\ KPath g s d).
+Proof. exact reachable_correct_lem. Qed.
+Print Assumptions reachable_correct.
+
+Theorem bi_reachable_correct :
+  forall g s d, bi_reachable g s d = true <->
+    ((In s (keys g) /\ KPath g s d) \/ (In d (keys g) /\ KPath g d s)).
+Proof. exact bi_reachable_correct_lem. Qed.
+Print Assumptions bi_reachable_correct.
+
+Theorem connected_fuel_ok : forall g s d, connected_opt g s d <> None.
+Proof. exact connected_fuel_ok_lem. Qed.
+Print Assumptions connected_fuel_ok.
+
+Theorem connected_correct :
+  forall g s d, WfGraph g -> (connected g s d = true <-> (In s (keys g) /\ UPath g s d)).
+Proof. exact connected_correct_lem. Qed.
+Print Assumptions connected_correct.
+
+Theorem find_all_bi_reachable_correct :
+  forall g s n, In n (find_all_bi_reachable g s) <-> (In n (keys g) /\ bi_reachable g s n = true).
+Proof. exact find_all_bi_reachable_correct_lem. Qed.
+Print Assumptions find_all_bi_reachable_correct.
+
+Theorem find_all_connected_correct :
+  forall g s n, In n (find_all_connected g s) <-> (In n (keys g) /\ connected g s n = true).
+Proof. exact find_all_connected_correct_lem. Qed.
+Print Assumptions find_all_connected_correct.
